@@ -287,6 +287,9 @@ def join_tokens(rng, toks, tight=0.5):
 
 NUMS = ['2', '3', '10', '0.5', '.25', '4.', '1.5', '12', '100', '-2', '-0.5', '1', '7', '1000', '2.54', '0.001']
 EXPS = ['2', '3', '-1', '-2', '1', '0', '4', '-3', '2.0', '0.5', '-0.5', '1.5', '.5', '0.25']
+# near-integer exponents OUTSIDE the documented 1e-7 snapping grid: they must stay fractional.  Used on single names only:
+# in nested expressions they multiply into exponents finer than the grid, where the documented rounding applies.
+EXPS_NEAR = ['1.000001', '2.00001', '-2.00001', '0.000005', '-1.000002']
 
 
 def gen_base(rng, si, depth, names, allow_bad=False):
